@@ -76,7 +76,9 @@ type Incarnation struct {
 	N      int
 	node   *Node
 	dead   atomic.Bool
+	closed atomic.Bool
 	deadCh chan struct{}
+	ready  chan struct{} // closed once Start has finished wiring the incarnation (hooks installed)
 
 	DB      *bbolt.DB
 	Store   swap.Store // the real bbolt store
@@ -153,8 +155,11 @@ func (n *Node) Start(opts ...StartOpts) error {
 		return fmt.Errorf("node %s already running", n.Name)
 	}
 	n.incN++
-	inc := &Incarnation{N: n.incN, node: n, deadCh: make(chan struct{})}
+	inc := &Incarnation{N: n.incN, node: n, deadCh: make(chan struct{}), ready: make(chan struct{})}
 	n.incMu.Unlock()
+	var readyOnce sync.Once
+	markReady := func() { readyOnce.Do(func() { close(inc.ready) }) }
+	defer markReady()
 
 	db, err := bbolt.Open(n.DBPath(), 0o700, &bbolt.Options{Timeout: 5 * time.Second, NoSync: true, NoFreelistSync: true})
 	if err != nil {
@@ -221,6 +226,7 @@ func (n *Node) Start(opts ...StartOpts) error {
 		n.w.emitLocked(n.Name, inc.N, "timer.arm", EvNote{Note: swapId})
 		n.w.mu.Unlock()
 	})
+	markReady()
 	if !o.NoRecover {
 		n.Recover()
 	}
@@ -257,9 +263,11 @@ func (n *Node) Restart(opts ...StartOpts) error {
 
 func (n *Node) closeInc() {
 	inc := n.Inc()
-	if inc == nil || inc.DB == nil {
+	if inc == nil || inc.DB == nil || !inc.closed.CompareAndSwap(false, true) {
 		return
 	}
+	// the DB field is never cleared (goroutines of the dead incarnation may still read it); a closed
+	// bbolt handle answers every later call with an error
 	done := make(chan struct{})
 	go func() { inc.DB.Close(); close(done) }()
 	select {
@@ -267,7 +275,6 @@ func (n *Node) closeInc() {
 	case <-time.After(10 * time.Second):
 		panic("harness: bbolt close blocked (a parked goroutine holds a transaction)")
 	}
-	inc.DB = nil
 }
 
 // Stop kills the incarnation and closes its database file (so that the file can be edited).
@@ -338,7 +345,13 @@ func (n *Node) Crossings() int64 { return n.crossings.Load() }
 // Call runs fn (a call into the node) in its own goroutine and returns when it
 // returned or the incarnation died. A panic inside fn is caught and returned as text.
 func (n *Node) Call(fn func()) (panicText string) {
-	inc := n.Inc()
+	return n.callOn(n.Inc(), fn)
+}
+
+// Call is Node.Call bound to this incarnation (returns when fn returned or this incarnation died).
+func (inc *Incarnation) Call(fn func()) string { return inc.node.callOn(inc, fn) }
+
+func (n *Node) callOn(inc *Incarnation, fn func()) (panicText string) {
 	done := make(chan string, 1)
 	go func() {
 		defer func() {
@@ -393,12 +406,23 @@ func (n *Node) Call(fn func()) (panicText string) {
 }
 
 func (inc *Incarnation) msgHandler() func(string, string, []byte) error {
+	inc.waitReady()
 	inc.hMu.Lock()
 	defer inc.hMu.Unlock()
 	return inc.handler
 }
 
+// waitReady holds a delivery back while the incarnation is still being started (a message that
+// reaches the socket while the daemon boots): the verif timeout hook is installed after Start.
+func (inc *Incarnation) waitReady() {
+	select {
+	case <-inc.ready:
+	case <-inc.deadCh:
+	}
+}
+
 func (inc *Incarnation) payCallback() func(string, int) {
+	inc.waitReady()
 	inc.hMu.Lock()
 	defer inc.hMu.Unlock()
 	if inc.payCb == nil {
